@@ -224,7 +224,7 @@ def run_check(prop, tier, seed):
         for k, args in enumerate(g['jobs']):
             jid = '%s/%d' % (g['name'], k)
             j = {'id': jid, 'pkg': g.get('pkg', 'spdxexp'), 'harness': g['harness'], 'args': [str(a) for a in args],
-                 'merge': g.get('merge', []), 'nomerge': g.get('nomerge', False)}
+                 'merge': g.get('merge', []), 'nomerge': g.get('nomerge', False), 'nofallback': bool(g.get('whole_table'))}
             jobs.append(j)
             gof[jid] = g
     # expensive groups first so that shards balance
